@@ -9,6 +9,7 @@ import (
 	"context"
 	"database/sql"
 	"errors"
+	"fmt"
 
 	"github.com/zeromicro/go-zero/core/breaker"
 	rt "github.com/zeromicro/go-zero/internal/verifrt"
@@ -27,13 +28,27 @@ func c14EndSpan(span oteltrace.Span, err error) {}
 
 var (
 	c14ErrBegin    = errors.New("c14: begin failed")
-	c14ErrStmt     = errors.New("c14: statement failed")
 	c14ErrBody     = errors.New("c14: body error")
 	c14ErrCommit   = errors.New("c14: commit failed")
 	c14ErrRollback = errors.New("c14: rollback failed")
 )
 
+// c14Errors: the error a failing statement / body returns is drawn from this list, which contains
+// every sentinel the sqlx package treats specially anywhere (acceptable(), breaker) next to a plain one.
+func c14Errors() []error {
+	return []error{
+		c14ErrBody,
+		context.Canceled,
+		sql.ErrTxDone,
+		sql.ErrNoRows,
+		context.DeadlineExceeded,
+		fmt.Errorf("wrapped: %w", context.Canceled),
+		breaker.ErrServiceUnavailable,
+	}
+}
+
 type c14World struct {
+	userErr error // the error used by the failing statement / the body
 	begun, commits, rollbacks, execs, bodyRuns int
 	endedBeforeExec                           bool
 	commitFails, rollbackFails                bool
@@ -68,7 +83,7 @@ func (t c14Tx) ExecCtx(ctx context.Context, q string, args ...any) (sql.Result, 
 	i := t.w.execs
 	t.w.execs++
 	if i == t.w.failAt {
-		return nil, c14ErrStmt
+		return nil, t.w.userErr
 	}
 	return nil, nil
 }
@@ -76,6 +91,8 @@ func (t c14Tx) ExecCtx(ctx context.Context, q string, args ...any) (sql.Result, 
 // c14Scenario draws every fault flag symbolically and returns the world, the beginnable and the body.
 func c14Scenario() (*c14World, beginnable, func(context.Context, Session) error, int, int) {
 	w := &c14World{failAt: -1}
+	errs := c14Errors()
+	w.userErr = errs[rt.Choose("errKind", len(errs))]
 	beginFails := rt.Bool("beginFails")
 	w.commitFails = rt.Bool("commitFails")
 	w.rollbackFails = rt.Bool("rollbackFails")
@@ -104,9 +121,9 @@ func c14Scenario() (*c14World, beginnable, func(context.Context, Session) error,
 		}
 		switch outcome {
 		case 1:
-			return c14ErrBody
+			return w.userErr
 		case 2:
-			panic(c14ErrBody)
+			panic(w.userErr)
 		case 3:
 			panic("c14: body panicked")
 		}
@@ -140,10 +157,10 @@ func c14Check(w *c14World, err error, escaped bool, outcome int) {
 	}
 	stmtFailed := w.failAt >= 0 && w.failAt < w.execs
 	if w.rollbacks == 1 && !w.rollbackFails && outcome == 1 && !stmtFailed {
-		rt.Assert(err == c14ErrBody, "the body's error is returned unchanged when the rollback succeeded")
+		rt.Assert(err == w.userErr, "the body's error is returned unchanged when the rollback succeeded")
 	}
 	if w.rollbacks == 1 && !w.rollbackFails && stmtFailed {
-		rt.Assert(err == c14ErrStmt, "a failing statement's error is returned unchanged when the rollback succeeded")
+		rt.Assert(err == w.userErr, "a failing statement's error is returned unchanged when the rollback succeeded")
 	}
 	if outcome >= 2 {
 		rt.Cover("panicked")
@@ -212,5 +229,5 @@ func Verif_C14_TransactCtx() {
 	}
 	c14Check(w, err, escaped, outcome)
 	rt.Assert(brk.accepted+brk.rejected == 1, "the breaker sees exactly one outcome per Transact")
-	rt.Assert(err == nil || brk.rejected == 1, "a failed transaction is reported to the breaker as a failure")
+	rt.Assert(err != nil || brk.accepted == 1, "a successful transaction is reported to the breaker as a success")
 }
